@@ -39,7 +39,49 @@ def run_tests(wt, name=None):
     return rc, res, out
 
 
+def run_checks(patch):
+    rc, out = sh(['git', '-C', REPO, 'status', '--porcelain'])
+    if out.strip():
+        print('refusing: /repo working tree is not clean')
+        sys.exit(2)
+    rc, out = sh(['git', '-C', REPO, 'apply', patch])
+    results = {}
+    try:
+        props = ['C%02d' % i for i in range(1, 21)]
+        for p in props:
+            r = subprocess.run(['python3', '-m', 'analysis.check', p, '--tier', 'quick'], cwd=VERIF,
+                               env=dict(os.environ, VERIF_OUT_DIR='/tmp/seedcheck-out'), capture_output=True, text=True)
+            keys = [l.split('key: ', 1)[1].strip() for l in r.stdout.splitlines() if l.strip().startswith('key: ')]
+            results[p] = {'rc': r.returncode, 'keys': keys}
+            if r.returncode == 2:
+                results[p]['errors'] = [l for l in r.stdout.splitlines() if l.startswith('ERROR')][:3]
+    finally:
+        sh(['git', '-C', REPO, 'checkout', '--', '.'])
+        shutil.rmtree('/tmp/seedcheck-out', ignore_errors=True)
+    return results
+
+
+def recheck(sid):
+    """re-run all checks against a stored seeded change (after the checks were strengthened)"""
+    d = os.path.join(VERIF, 'seeded', sid)
+    meta = json.load(open(os.path.join(d, 'meta.json')))
+    results = run_checks(os.path.join(d, 'patch.diff'))
+    first = meta.get('caught_by_first_run', meta.get('caught_by', []))
+    meta['caught_by_first_run'] = first
+    meta['checks'] = {p: v for p, v in results.items() if v['rc'] != 0}
+    meta['caught_by'] = [p for p, v in results.items() if v['rc'] == 1]
+    meta['verdict'] = 'confirmed; ' + ('caught by ' + ','.join(meta['caught_by']) if meta['caught_by'] else 'MISSED by all checks')
+    if not first and meta['caught_by']:
+        meta['verdict'] += ' (missed at the first run; caught after the checks were strengthened)'
+    json.dump(meta, open(os.path.join(d, 'meta.json'), 'w'), indent=1)
+    print(sid, meta['verdict'], {p: v['keys'][:3] for p, v in meta['checks'].items()})
+
+
 def main():
+    if sys.argv[1] == '--recheck':
+        for sid in sys.argv[2:]:
+            recheck(sid)
+        return
     sid, src, prop = sys.argv[1], sys.argv[2], sys.argv[3]
     demo_test = None
     if '--demo-test' in sys.argv:
@@ -102,24 +144,7 @@ def main():
             return finish(meta, sid, src)
     finally:
         sh(['git', '-C', REPO, 'worktree', 'remove', '--force', wt])
-    # run the checks against /repo with the change applied
-    rc, out = sh(['git', '-C', REPO, 'status', '--porcelain'])
-    if out.strip():
-        print('refusing: /repo working tree is not clean')
-        sys.exit(2)
-    rc, out = sh(['git', '-C', REPO, 'apply', patch])
-    results = {}
-    try:
-        props = ['C%02d' % i for i in range(1, 21)]
-        for p in props:
-            r = subprocess.run(['python3', '-m', 'analysis.check', p, '--tier', 'quick'], cwd=VERIF,
-                               env=dict(os.environ, VERIF_OUT_DIR='/tmp/seedcheck-out'), capture_output=True, text=True)
-            keys = [l.split('key: ', 1)[1].strip() for l in r.stdout.splitlines() if l.strip().startswith('key: ')]
-            results[p] = {'rc': r.returncode, 'keys': keys}
-            if r.returncode == 2:
-                results[p]['errors'] = [l for l in r.stdout.splitlines() if l.startswith('ERROR')][:3]
-    finally:
-        sh(['git', '-C', REPO, 'checkout', '--', '.'])
+    results = run_checks(patch)
     meta['checks'] = {p: v for p, v in results.items() if v['rc'] != 0}
     caught = [p for p, v in results.items() if v['rc'] == 1]
     meta['caught_by'] = caught
